@@ -24,7 +24,9 @@ def cfg_layers(tier, adversarial=("cnf",), extra_quick=(), extra_thorough=()):
     plain_q = ["natural@plain", "1@plain", "2@plain", "3@plain"]
     if tier == "quick":
         ls = [Layer("CFG(2,2,2,<=3)", lambda: G.cfg_cases(2, 2, 2, 0, 3), rep=G.is_rep),
-              Layer("CFG(2,2,3,<=2)", lambda: G.cfg_cases(2, 2, 3, 0, 2), rep=G.is_rep)]
+              Layer("CFG(2,2,3,<=2)", lambda: G.cfg_cases(2, 2, 3, 0, 2), rep=G.is_rep),
+              Layer("CFG(3,2,1,<=5) unit/terminal/epsilon productions only", lambda: G.cfg_cases(3, 2, 1, 0, 5),
+                    rep=G.is_rep, policies=["natural@plain", "1@plain", "2@plain"])]
         for sch in adversarial:
             ls.append(Layer("CFG(2,2,2,<=2)/names:" + sch, lambda: G.cfg_cases(2, 2, 2, 0, 2), rep=None,
                             policies=["natural@" + sch, "1@" + sch]))
@@ -33,7 +35,9 @@ def cfg_layers(tier, adversarial=("cnf",), extra_quick=(), extra_thorough=()):
                             policies=["natural@cnf2"]))
         return ls + list(extra_quick)
     few = ["natural@plain", "1@plain", "2@plain"]
-    ls = [Layer("CFG(2,2,2,<=3)", lambda: G.cfg_cases(2, 2, 2, 0, 3), rep=None),
+    ls = [Layer("CFG(3,2,1,<=6) unit/terminal/epsilon productions only", lambda: G.cfg_cases(3, 2, 1, 0, 6),
+                rep=G.is_rep, policies=["natural@plain", "1@plain", "2@plain", "3@plain"]),
+          Layer("CFG(2,2,2,<=3)", lambda: G.cfg_cases(2, 2, 2, 0, 3), rep=None),
           Layer("CFG(2,2,3,<=2)", lambda: G.cfg_cases(2, 2, 3, 0, 2), rep=None),
           Layer("CFG(2,2,2,4)", lambda: G.cfg_cases(2, 2, 2, 4, 4), rep=G.is_rep, policies=few),
           Layer("CFG(3,2,2,<=3)", lambda: G.cfg_cases(3, 2, 2, 0, 3), rep=G.is_rep, policies=few),
